@@ -1,6 +1,7 @@
 package main
 
 import (
+	"runtime/debug"
 	"fmt"
 	"go/types"
 	"regexp"
@@ -21,11 +22,17 @@ func (e *Engine) newFnCtx(fn *ssa.Function, c *Contract) *FnCtx {
 }
 
 // VerifyFunction generates all obligations of one function under contract.
-func (e *Engine) VerifyFunction(fn *ssa.Function, c *Contract) *FnCtx {
+func (e *Engine) VerifyFunction(fn *ssa.Function, c *Contract) (res *FnCtx) {
 	fc := e.newFnCtx(fn, c)
 	defer func() {
 		if r := recover(); r != nil {
-			fc.unsupported("engine panic: %v", r)
+			// reported as an unsupported construct: the function's obligations do not count as discharged
+			st := debug.Stack()
+			if len(st) > 2500 {
+				st = st[:2500]
+			}
+			fc.unsupported("engine panic: %v\n%s", r, st)
+			res = fc
 		}
 	}()
 	fr := &Frame{fc: fc, fn: fn, env: map[ssa.Value]Val{}, reach: map[int]string{}, exit: map[int]*State{}, edgeCnd: map[edgeKey]string{},
